@@ -255,7 +255,7 @@ Section Successors.
   Hypothesis Href : refine solver_unsat g = Ok g'.
   (* offsets are code offsets: they fit a 256-bit word *)
   Hypothesis Hoff : forall b, In b (g_blocks g) -> 0 <= ab_off b < 2 ^ 256.
-  Hypothesis Hft : forall b c t f, In b (g_blocks g) -> ab_exit b = XBranch c t f -> 0 <= f < 2 ^ 256.
+  Hypothesis Hft : forall b c t f, In b (g_blocks g) -> ab_exit b = ABranch c t f -> 0 <= f < 2 ^ 256.
 
   Let sorted := g_blocks g.
 
@@ -362,7 +362,7 @@ Section Successors.
       unfold shallow_bad_jump in Hqb. rewrite Ex in Hqb. cbn [exit_to_z3] in Hqb.
       destruct (tr_sexpr_from 0 t) as [[zt n]|er|p] eqn:Et; cbn [bind fst snd] in Hqb; try discriminate.
       destruct (tr_sexpr_from n c) as [[zc n']|er|p] eqn:Ec; cbn [bind fst snd] in Hqb; try discriminate.
-      assert (Hz : exit_to_z3 (XBranch c t f) = Ok (ZBranch zc zt f)).
+      assert (Hz : exit_to_z3 (ABranch c t f) = Ok (ZBranch zc zt f)).
       { cbn [exit_to_z3]. rewrite Et. cbn [bind fst snd]. rewrite Ec. reflexivity. }
       pose proof (Hft b c t f Hb Ex) as Hf.
       set (vc := bv_eval M0 zc). set (vt := bv_eval M0 zt).
@@ -434,8 +434,8 @@ Proof.
 Qed.
 
 Lemma mandatory_edge : forall sorted jts b,
-  (ab_exit b = XTerminate -> block_edges sorted jts b = [(NBlock (ab_off b), NTerm)]) /\
-  (forall f, ab_exit b = XFallThrough f ->
+  (ab_exit b = ATerminate -> block_edges sorted jts b = [(NBlock (ab_off b), NTerm)]) /\
+  (forall f, ab_exit b = AFallThrough f ->
      block_edges sorted jts b = [(NBlock (ab_off b), match find_block sorted f with Some _ => NBlock f | None => NTerm end)]).
 Proof.
   intros sorted jts b. split.
